@@ -566,6 +566,44 @@ def e2e_select(v, U, snap, scratch, rng, inc_cases, k):
             want = {"d1": {p for p in f1 if sel.selected("d1", p, "file", is_bad=p in e1)}, "d2": set()}
             # (files of d2 sharing a stripe with a bad block are selected too, but they are intact)
             run_fix_and_compare("fix -e", sel, before, want)
+        plain_fix("plain fix 4")
+
+        # --- step 6: -m and symbolic links: a recorded link that now points to a target that does not exist IS present (only a
+        # link that is gone is missing): fix -m leaves it as it is
+        links = {d: sorted(p for p, e in trees[d].items() if e[0] not in ("file", "emptydir")) for d in trees}
+        if any(links.values()):
+            for d in trees:
+                for p in links[d][::2]:
+                    full = os.path.join(arr.disks[d], p)
+                    if os.path.islink(full):
+                        os.unlink(full)
+                        os.symlink("no/such/target-%d" % len(p), full)
+            before = {d: snapshot(arr.disks[d]) for d in trees}
+            frozen = file_digest(arr.protected)
+            sel = Sel(U, None, (), missing=True)
+            run_fix_and_compare("fix -m with re-pointed dangling links", sel, before, {d: set() for d in trees})
+            plain_fix("plain fix 5")
+
+        # --- step 7: stripes that cannot be repaired (one parity lost, every file of both disks rotten): whatever fix does with
+        # the selected files, an entry outside the selection keeps its name, its bytes and its time stamp
+        os.unlink(arr.protected[1])
+        for d in trees:
+            for p in files[d]:
+                corrupt_silently(os.path.join(arr.disks[d], p))
+        before = {d: snapshot(arr.disks[d]) for d in trees}
+        sel = choose_sel(rng, U, inc_cases, trees, with_disk=rng.random() < 0.5)
+        rc, out = arr.run("fix", *sel.args())
+        steps.append(["fix with unrecoverable stripes"] + sel.args())
+        for d in trees:
+            got = snapshot(arr.disks[d])
+            outside = {p for p, e in trees[d].items() if not sel.selected(d, p, e[0])}
+            for p in sorted(outside):
+                checks += 1
+                if p in before[d] and got.get(p) != before[d][p]:
+                    fail("fix with unrecoverable stripes", sel, "entry %s/%s outside the selection was %s" %
+                         (d, p, "renamed or removed" if p not in got else "modified"),
+                         {"disk": d, "path": p, "now": sorted(q for q in got if q.startswith(p))})
+                    break
         return checks, scen, steps
     finally:
         shutil.rmtree(root, ignore_errors=True)
